@@ -229,7 +229,23 @@ def short(x, n=300):
 # running one sequence against a real server and the reference worker
 # ------------------------------------------------------------------------------------------
 
-START_LOCK = threading.Lock()
+_WRAPPER = []
+_WRAPPER_LOCK = threading.Lock()
+
+
+def python_wrapper():
+    """One shell wrapper per check run (written once, before any server is started: writing an
+    executable while other threads fork gives ETXTBSY)."""
+    with _WRAPPER_LOCK:
+        if not _WRAPPER:
+            import tempfile
+            d = tempfile.mkdtemp(prefix='supp_verif_C15_py_')
+            w = os.path.join(d, 'python')
+            with open(w, 'w') as f:
+                f.write('#!/bin/sh\nexec %s "$@" 2>>"${C15_STDERR:-/dev/null}"\n' % PY)
+            os.chmod(w, 0o755)
+            _WRAPPER.append(w)
+        return _WRAPPER[0]
 
 
 class Runner(object):
@@ -251,16 +267,26 @@ class Runner(object):
         os.utime(p, (self.mtime, self.mtime))
 
     def start(self):
+        for attempt in range(4):
+            try:
+                return self._start()
+            except Exception:
+                # start-up (remote.py:55-65 gives the server 5 s; C16's subject) can time out on a
+                # loaded machine: not what this check is about, try again
+                self.stop()
+                self.env = self.wproc = self.wconn = None
+                if attempt == 3:
+                    raise
+                time.sleep(1 + attempt)
+
+    def _start(self):
         from supp.remote import Environment
         from multiprocessing.connection import Client, arbitrary_address
         penv = {'PYTHONPATH': REPO, 'SUPP_LOG_FILE': os.path.join(self.workdir, 'server.log')}
         # the server inherits stderr (tracebacks of BaseExceptions): send it to a file through a
         # wrapper `executable` (the constructor's documented parameter), same interpreter
-        wrapper = os.path.join(self.workdir, 'python')
-        with open(wrapper, 'w') as f:
-            f.write('#!/bin/sh\nexec %s "$@" 2>>%s\n' % (PY, os.path.join(self.workdir, 'server.stderr')))
-        os.chmod(wrapper, 0o755)
-        self.env = Environment(executable=wrapper, env=penv)
+        penv['C15_STDERR'] = os.path.join(self.workdir, 'server.stderr')
+        self.env = Environment(executable=python_wrapper(), env=penv)
         self.env.run()                       # start the server and connect (remote.py:84-90)
         wpath = os.path.join(self.workdir, 'refworker.py')
         with open(wpath, 'w') as f:
@@ -386,7 +412,13 @@ def run_sequence(seq, workdir, timeout):
             if 'edit' in step:
                 r.write(step['edit'], step['content'])
                 continue
-            batch = step['pipe'] if 'pipe' in step else [step['call']]
+            if 'pipe' in step:
+                acts = [['s', c] for c in step['pipe']] + [['r']] * len(step['pipe'])
+            elif 'sched' in step:
+                acts = step['sched']
+            else:
+                acts = None
+            batch = [a[1] for a in acts if a[0] == 's'] if acts is not None else [step['call']]
             built = [(c[0], build(c[1], r.proj), build(c[2], r.proj)) for c in batch]
             # ---- remote -------------------------------------------------------------------
             obs = []
@@ -394,19 +426,27 @@ def run_sequence(seq, workdir, timeout):
             killer = threading.Timer(timeout, on_timeout)
             killer.daemon = True
             killer.start()
-            if 'pipe' in step:
-                # connection level: all requests are sent before any reply is read
+            if acts is not None:
+                # connection level: requests are sent ahead of reading the replies, in the given
+                # interleaving of sends and (blocking) reads; whatever is outstanding is read at the end
+                outstanding = []
+                nsent = 0
                 try:
-                    for name, args, kwargs in built:
-                        r.env.conn.send_bytes(dumps((name, tuple(args), kwargs)))
+                    for a in acts + [['r']] * len(built):
+                        if a[0] == 's':
+                            name, args, kwargs = built[nsent]
+                            r.env.conn.send_bytes(dumps((name, tuple(args), kwargs)))
+                            outstanding.append(name)
+                            nsent += 1
+                        elif outstanding:
+                            name = outstanding.pop(0)
+                            try:
+                                result, is_ok = loads(r.env.conn.recv_bytes())     # as remote.py:99-104
+                                obs.append(observe_value(name, result) if is_ok else ('raised', result[1]))
+                            except Exception as e:
+                                obs.append(classify_exception(e))
                 except Exception as e:
-                    obs = [classify_exception(e)] * len(built)
-                for name, args, kwargs in built[len(obs):]:
-                    try:
-                        result, is_ok = loads(r.env.conn.recv_bytes())     # as remote.py:99-104
-                        obs.append(observe_value(name, result) if is_ok else ('raised', result[1]))
-                    except Exception as e:
-                        obs.append(classify_exception(e))
+                    obs.extend([classify_exception(e)] * (len(built) - len(obs)))
             else:
                 name, args, kwargs = built[0]
                 try:
@@ -455,7 +495,7 @@ def run_sequence(seq, workdir, timeout):
                 res['sizes'].append(size)
                 if server_alive:
                     res['alive'].append(alive_now)
-                    if not alive_now:
+                    if not alive_now and not res['timed_out']:
                         res['mism'].append((idx, 'server process terminated (exit code %r) after request %r'
                                             % (r.env.proc.poll(), c[0])))
                 else:
@@ -578,7 +618,39 @@ def case_term(res, workdir):
                                              'true' if res['final_alive'] else 'false')
 
 
+def sched_case_term(res, seq, workdir):
+    """(table, actions, observed) for a sequence made of one interleaved step. A blocking read is
+    `serve as many iterations as requests are outstanding, then read` in the model (by
+    C15_any_interleaving the observations do not depend on where the server iterations fall)."""
+    it = Interner()
+    proj = os.path.join(workdir, 'proj')
+    table = []
+    for oc in res['outcomes']:
+        if oc is not None:
+            if oc[0] == 'ret':
+                oc = ('ret', t_sort_dicts(oc[1]))
+            table.append(outcome_term(oc, it))
+    step = seq['steps'][0]
+    acts = step['sched'] if 'sched' in step else [['s', c] for c in step['pipe']] + [['r']] * len(step['pipe'])
+    out = []
+    outstanding = 0
+    nsend = sum(1 for a in acts if a[0] == 's')
+    for a in acts + [['r']] * nsend:
+        if a[0] == 's':
+            name, ar, kw = a[1]
+            out.append('(CSend %s)' % pyv_term(tag((name, tuple(build(ar, proj)), build(kw, proj))), it))
+            outstanding += 1
+        elif outstanding:
+            out.extend(['CServe'] * outstanding + ['CRecv'])
+            outstanding -= 1
+    observed = [obs_term(o, it) for o in res['observed']]
+    return '(%s, %s, (%s : list cobs))' % (coq_list(table) if table else '([] : list coutcome)', coq_list(out),
+                                         coq_list(observed) if observed else '[]')
+
+
 PRELUDE = '''
+Definition check_sched (c : list coutcome * list cact * list cobs) : bool :=
+  match c with (table, acts, observed) => check_schedule table acts observed end.
 Definition check_sync (c : list coutcome * list pyv * list cobs * bool) : bool :=
   match c with (table, reqs, observed, alive) => check_sequence table reqs observed alive end.
 Definition check_pipe (c : list coutcome * list pyv * list cobs * bool) : bool :=
@@ -723,8 +795,9 @@ def base_steps(rng, n, bulk_sizes=()):
             c, k = ['configure', CONFIGURE_OK[0], {}], 'configure'
         else:
             b = None
-            if bulk_sizes and rng.random() < 0.35:
-                b = (rng.choice(['comment', 'string', 'unicode']), rng.choice(bulk_sizes))
+            if bulk_sizes and rng.random() < 0.6:
+                b = (rng.choice(['comment', 'string', 'unicode']),
+                     rng.choice(bulk_sizes[-3:]) if rng.random() < 0.5 else rng.choice(bulk_sizes))
             c, k = g_valid(rng, b)
         steps.append({'call': c})
         kinds.append(k)
@@ -736,7 +809,7 @@ def gen_sequences(ctx):
     seqs = []
     maxlen = ctx.pick(12, 60)
     # (a) systematic: a failing request of every kind at EVERY index of a base sequence
-    nbase = ctx.pick(3, 6)
+    nbase = ctx.pick(3, 12)
     for b in range(nbase):
         n = rng.randint(4, ctx.pick(6, 10))
         steps, kinds = base_steps(rng, n)
@@ -747,7 +820,7 @@ def gen_sequences(ctx):
                 st = steps[:i] + [{'call': f}] + steps[i:]
                 seqs.append({'files': FILES, 'steps': st, 'tag': 'inject-%s@%d' % (kind, i)})
     # (b) random mixes: valid, failing, edits of project files, fatal requests at the end
-    for j in range(ctx.pick(40, 160)):
+    for j in range(ctx.pick(60, 900)):
         n = rng.randint(1, maxlen)
         steps = []
         nfail = 0
@@ -770,9 +843,9 @@ def gen_sequences(ctx):
                 steps.append({'call': g_valid(rng)[0] if rng.random() < 0.7 else g_failing(rng)[0]})
         seqs.append({'files': FILES, 'steps': steps, 'tag': 'mix'})
     # (c) payload sizes: 0 bytes .. several MiB, bulk = one comment / string literal
-    sizes = ctx.pick([0, 1, 31, 32, 255, 256, 65535, 65536, 300000, 2 * 2 ** 20],
-                     [0, 1, 31, 32, 255, 256, 65535, 65536, 10 ** 6, 2 * 2 ** 20, 4 * 2 ** 20, 8 * 2 ** 20])
-    for j in range(ctx.pick(5, 12)):
+    sizes = ctx.pick([0, 1, 31, 32, 255, 256, 65535, 65536, 300000, 2 ** 20, 2 * 2 ** 20],
+                     [0, 1, 31, 32, 255, 256, 65535, 65536, 10 ** 6, 2 * 2 ** 20, 4 * 2 ** 20, 8 * 2 ** 20, 16 * 2 ** 20])
+    for j in range(ctx.pick(5, 40)):
         n = rng.randint(4, ctx.pick(8, 16))
         steps, _ = base_steps(rng, n, bulk_sizes=sizes)
         for i in sorted(rng.sample(range(1, n + 1), min(n, 3)), reverse=True):
@@ -788,7 +861,7 @@ def gen_sequences(ctx):
         steps.append({'call': g_failing(rng)[0]})
     seqs.append({'files': FILES, 'steps': steps, 'tag': 'payload-ladder'})
     # (d) pipelined at the connection level: everything sent before the first reply is read
-    for j in range(ctx.pick(10, 40)):
+    for j in range(ctx.pick(12, 150)):
         n = rng.randint(2, ctx.pick(12, 40))
         calls = [['configure', CONFIGURE_OK[0], {}]]
         for i in range(n - 1):
@@ -798,6 +871,22 @@ def gen_sequences(ctx):
             else:
                 calls.append(g_valid(rng)[0])
         seqs.append({'files': FILES, 'steps': [{'pipe': calls}], 'tag': 'pipeline'})
+    # (e) interleavings: up to 8 requests in flight, reads and sends in random order
+    for j in range(ctx.pick(12, 150)):
+        n = rng.randint(3, ctx.pick(12, 40))
+        acts = [['s', ['configure', CONFIGURE_OK[0], {}]]]
+        inflight = 1
+        for i in range(n - 1):
+            while inflight and (inflight >= 8 or rng.random() < 0.45):
+                acts.append(['r'])
+                inflight -= 1
+            if rng.random() < 0.4:
+                c = g_failing(rng, rng.choice(['unknown', 'arity', 'raises', 'serialise']))[0]
+            else:
+                c = g_valid(rng)[0]
+            acts.append(['s', c])
+            inflight += 1
+        seqs.append({'files': FILES, 'steps': [{'sched': acts}], 'tag': 'interleaved'})
     return seqs
 
 
@@ -854,6 +943,42 @@ def process_dependent(ctx, seq, idx, res, tries=3):
     return False
 
 
+def check_environment(ctx):
+    """The server must run the tree under test, and the reference worker must see the same
+    interpreter environment as the server (assist lists sys.modules / sys.path)."""
+    wd = os.path.join(ctx.scratch, 'envcheck')
+    os.makedirs(wd)
+    r = Runner(wd)
+    src = ('import sys, os, supp\n'
+           'return (os.path.dirname(os.path.dirname(os.path.abspath(supp.__file__))), list(sys.path), '
+           'sorted(set(m.partition(".")[0] for m in sys.modules)), os.getcwd(), sys.executable)')
+    try:
+        r.start()
+        a = r.env.eval(src)
+        b = r.inproc('eval', [src], {})
+    finally:
+        r.stop()
+    if os.path.realpath(a[0]) != os.path.realpath(REPO):
+        raise RuntimeError('the server imported supp from %s, expected %s' % (a[0], REPO))
+    ref = t_normalise(b[1])
+    same = tag(a) == ref
+    ctx.coverage['reference_environment_equal_to_server'] = same
+    if not same:
+        ra = tag(a)[1]
+        diff = [k for k, (x, y) in zip(('repo', 'sys.path', 'top-level sys.modules', 'cwd', 'executable'), zip(ra, ref[1])) if x != y]
+        ctx.notes.append('reference worker environment differs from the server in: %s' % diff)
+    return same
+
+
+def seq_mode(seq):
+    st = seq['steps']
+    if len(st) == 1 and 'pipe' in st[0]:
+        return 'pipeline'
+    if len(st) == 1 and 'sched' in st[0]:
+        return 'interleaved'
+    return 'sync'
+
+
 def failure_kind(c):
     for kind, pool in FAIL_KINDS + [('fatal', FATAL)]:
         if c in pool:
@@ -862,6 +987,16 @@ def failure_kind(c):
 
 
 def run(ctx):
+    python_wrapper()
+    try:
+        _run(ctx)
+    finally:
+        import shutil
+        if _WRAPPER:
+            shutil.rmtree(os.path.dirname(_WRAPPER.pop()), ignore_errors=True)
+
+
+def _run(ctx):
     proof_ok = ctx.coq_props()
     cov = ctx.coverage
     cov['rule'] = ('request sequences (<= %d requests) over configure/assist/location/lint/eval: base sequences with a failing '
@@ -872,7 +1007,8 @@ def run(ctx):
                    'with the in-process call in a reference worker (direct), and with Model/Rpc.v instantiated with the '
                    'recorded in-process outcomes (vm_compute). One evaluation = one request; non-trivial = a failing request, '
                    'a request after a failing one, a payload >= 64 KiB, or a pipelined request'
-                   % (ctx.pick(12, 60), ctx.pick('2 MiB', '8 MiB')))
+                   % (ctx.pick(12, 60), ctx.pick('2 MiB', '16 MiB')))
+    check_environment(ctx)
     seqs = load_corpus() + gen_sequences(ctx)
     ctx.log('%d sequences, %d requests' % (len(seqs), sum(len(s['steps']) for s in seqs)))
     timeout = ctx.pick(30, 180)     # per call
@@ -897,7 +1033,7 @@ def run(ctx):
         results = list(ex.map(one, range(len(seqs))))
     ctx.log('replayed against real servers in %.1fs' % (time.time() - t0))
 
-    sync_terms, sync_idx, pipe_terms, pipe_idx = [], [], [], []
+    sync_terms, sync_idx, pipe_terms, pipe_idx, sched_terms, sched_idx = [], [], [], [], [], []
     nviol = 0
     maxsize = 0
     slowest = 0.0
@@ -914,13 +1050,17 @@ def run(ctx):
             fk = failure_kind(c)
             big = res['sizes'][j] >= 65536 or (res['observed'][j][0] == 'returned' and res['observed'][j][1][0] == 's'
                                                and len(res['observed'][j][1][1]) >= 65536)
-            nontrivial = bool(fk) or failed_before or big or seq['tag'] == 'pipeline'
+            nontrivial = bool(fk) or failed_before or big or seq_mode(seq) != 'sync'
             ctx.count((seq['tag'], j, json.dumps(res['calls'][:j + 1], sort_keys=True, default=repr)[-4000:]), nontrivial=nontrivial)
             ctx.histogram('request_kind', fk or c[0])
             ctx.histogram('observation', res['observed'][j][0])
             if fk:
                 ctx.histogram('failure_at_index', min(j, 60))
                 failed_before = True
+            ob = res['observed'][j]
+            if ob[0] == 'returned' and ob[1][0] == 's':
+                rl = len(ob[1][1])
+                ctx.histogram('reply_string_bytes', '0-255' if rl < 256 else '256-64K' if rl < 65536 else '64K-1M' if rl < 2 ** 20 else '>=1MiB')
             sz = res['sizes'][j]
             ctx.histogram('request_bytes', '0-255' if sz < 256 else '256-64K' if sz < 65536 else '64K-1M' if sz < 2 ** 20 else '>=1MiB')
             maxsize = max(maxsize, sz)
@@ -944,11 +1084,18 @@ def run(ctx):
                               {'kind': 'direct', 'sequence': strip(seq), 'index': idx, 'what': what})
         if res.get('skip_model'):
             continue
-        term = case_term(res, os.path.join(ctx.scratch, 'seq%d' % i))
+        wd = os.path.join(ctx.scratch, 'seq%d' % i)
+        mode = seq_mode(seq)
+        if mode != 'sync':
+            sched_terms.append(sched_case_term(res, seq, wd))
+            sched_idx.append(i)
+            if mode == 'interleaved':
+                continue
+        term = case_term(res, wd)
         if len(term) > 900000:
             ctx.histogram('model_case', 'skipped-too-large')
             continue
-        if seq['tag'] == 'pipeline':
+        if mode == 'pipeline':
             pipe_terms.append(term)
             pipe_idx.append(i)
         else:
@@ -961,14 +1108,16 @@ def run(ctx):
     # ---- (I): the model predicts every observation ------------------------------------------
     bad = []
     t0 = time.time()
-    for terms, idxs, fn in ((sync_terms, sync_idx, 'check_sync'), (pipe_terms, pipe_idx, 'check_pipe')):
+    for terms, idxs, fn in ((sync_terms, sync_idx, 'check_sync'), (pipe_terms, pipe_idx, 'check_pipe'),
+                            (sched_terms, sched_idx, 'check_sched')):
         if not terms:
             continue
         per = max(1, min(40, 600000 // max(1, max(len(t) for t in terms))))
         b = ctx.run_cases(['Model.Rpc'], PRELUDE, fn, terms, shard=per)
         bad.extend(idxs[k] for k in b)
-    ctx.log('model evaluated on %d sequences in %.1fs' % (len(sync_terms) + len(pipe_terms), time.time() - t0))
-    cov['correspondence_cases'] = len(sync_terms) + len(pipe_terms)
+    bad = sorted(set(bad))
+    ctx.log('model evaluated on %d cases in %.1fs' % (len(sync_terms) + len(pipe_terms) + len(sched_terms), time.time() - t0))
+    cov['correspondence_cases'] = len(sync_terms) + len(pipe_terms) + len(sched_terms)
     cov['correspondence_disagreements'] = len(bad)
     direct_failed = {i for i, r in enumerate(results) if r.get('mism')}
     for i in bad:
@@ -1001,7 +1150,12 @@ def replay(ctx, obj):
         print(obj.get('what'))
         return 1
     seq.setdefault('files', FILES)
-    res = run_sequence(seq, os.path.join(ctx.scratch, 'replay'), 600)
+    try:
+        res = run_sequence(seq, os.path.join(ctx.scratch, 'replay'), 600)
+    finally:
+        import shutil
+        if _WRAPPER:
+            shutil.rmtree(os.path.dirname(_WRAPPER.pop()), ignore_errors=True)
     for j, c in enumerate(res['calls']):
         print(j, c[0], '| in-process:', short(res['outcomes'][j], 150), '| client:', short(res['observed'][j], 150))
     for idx, what in res['mism']:
